@@ -620,6 +620,35 @@ func runSeq(p *core.Program, r *core.Report, queue bool) {
 			}
 		}
 	}
+	// who may change the list: only the operations the rules above are phrased over
+	{
+		mutating := map[string]bool{"Unshift": true, "Append": true, "InsertBefore": true, "InsertAfter": true, "Replace": true, "Delete": true, "Shift": true, "Pop": true, "Clear": true}
+		covered := map[string]bool{add: true, rem: true, "Clear": true, "NewLinked": true}
+		for _, f := range all2 {
+			if covered[f.Name()] {
+				continue
+			}
+			var fs []*ssa.Function
+			var addf func(g *ssa.Function)
+			addf = func(g *ssa.Function) {
+				fs = append(fs, g)
+				for _, a := range g.AnonFuncs {
+					addf(a)
+				}
+			}
+			addf(f)
+			for _, g := range fs {
+				for name, calls := range listCalls(g) {
+					if !mutating[name] {
+						continue
+					}
+					for _, call := range calls {
+						c.ob("AG1", p.FuncName(f), "changes the list", p.InstrPos(call), false, "the list is changed (DList."+name+") by a function other than the insertion, the removal and Clear: the order of delivery the rules establish no longer holds")
+					}
+				}
+			}
+		}
+	}
 	// positional primitives never compare element values; read-only ones write nothing
 	for _, pr := range []struct {
 		fn   *ssa.Function
